@@ -16,7 +16,20 @@ pub enum Q {
 
 fn gcd128(a: i128, b: i128) -> i128 {
     let (mut a, mut b) = (a.unsigned_abs(), b.unsigned_abs());
+    if b == 1 || a == 1 {
+        return 1;
+    }
     while b != 0 {
+        if a <= u64::MAX as u128 && b <= u64::MAX as u128 {
+            // 64-bit remainder is several times cheaper than the 128-bit one
+            let (mut x, mut y) = (a as u64, b as u64);
+            while y != 0 {
+                let t = x % y;
+                x = y;
+                y = t;
+            }
+            return x as i128;
+        }
         let t = a % b;
         a = b;
         b = t;
@@ -67,7 +80,7 @@ impl Q {
             d = -d;
         }
         if let (Some(a), Some(b)) = (n.to_i128(), d.to_i128()) {
-            if a.abs() < LIM && b < LIM {
+            if a.unsigned_abs() < (LIM as u128) && b < LIM {
                 return Q::S(a, b);
             }
         }
@@ -283,7 +296,7 @@ impl Add for &Q {
         if let (Q::S(a, b), Q::S(c, d)) = (self, o) {
             if b == d {
                 if let Some(n) = a.checked_add(*c) {
-                    if n.abs() < LIM {
+                    if n.unsigned_abs() < (LIM as u128) {
                         return Q::small(n, *b);
                     }
                 }
@@ -294,7 +307,7 @@ impl Add for &Q {
                     (a.checked_mul(dd), c.checked_mul(bb), b.checked_mul(dd))
                 {
                     if let Some(n) = x.checked_add(y) {
-                        if n.abs() < LIM && den < LIM {
+                        if n.unsigned_abs() < (LIM as u128) && den < LIM {
                             return Q::small(n, den);
                         }
                     }
@@ -324,7 +337,7 @@ impl Mul for &Q {
             let (a, d) = (a / g1, d / g1);
             let (c, b) = (c / g2, b / g2);
             if let (Some(n), Some(den)) = (a.checked_mul(c), b.checked_mul(d)) {
-                if n.abs() < LIM && den < LIM {
+                if n.unsigned_abs() < (LIM as u128) && den < LIM {
                     return Q::small(n, den);
                 }
             }
